@@ -208,7 +208,11 @@ def check(ctx):
                "head selects positions 0..n-1" if ok else "head does not select exactly positions 0..n-1",
                clause="head/tail keep the first/last min(n, nrow) rows")
         tp = [c for f_, c in calls_in(t) if repo.dotted(f_, c.func) == "numpy.arange"]
-        ok = len(tp) == 1 and (_pm2(f"np.arange({S_}.{size} - _N, {S_}.{size})", tp[0]) is not None)
+        from ..forms import resolved_text as _rt2
+        ok = len(tp) == 1 and ((_pm2(f"np.arange({S_}.{size} - _N, {S_}.{size})", tp[0]) is not None) or (
+            len(tp[0].args) == 2 and _rt2(t, tp[0].args[1], tp[0]) == f"{S_}.{size}"
+            and isinstance(tp[0].args[0], ast.BinOp) and isinstance(tp[0].args[0].op, ast.Sub)
+            and _rt2(t, tp[0].args[0].left, tp[0]) == f"{S_}.{size}" and isinstance(tp[0].args[0].right, ast.Name)))
         ctx.ob("SIB-3", t, norm(tp[0]) if tp else "np.arange(size - n, size)", tp[0] if tp else t.node, ok,
                "tail selects positions size-n..size-1" if ok else "tail does not select exactly the last n positions",
                clause="head/tail keep the first/last min(n, nrow) rows")
